@@ -1,10 +1,17 @@
 package props
 
 // C19 — operations documented as read-only or thread-safe are race-free.
+//
+// All raw values (scalars, tags, messages, seeds) are drawn once; the library
+// objects are then built from them twice or more: one "world" serves the solo
+// runs that define the expected results, and every concurrent run gets a fresh
+// world, so that nothing (a lazily normalised key, a warmed-up cache) has been
+// touched sequentially before the goroutines race on it.
 
 import (
 	"bytes"
 	"fmt"
+	"math/big"
 	"runtime"
 	"sync"
 	"testing"
@@ -15,178 +22,255 @@ import (
 	"verifharness/gen"
 )
 
+type c19Raw struct {
+	xs       []*big.Int
+	tag      string
+	kmacSize int
+	msgs     [][]byte
+	ecSeeds  [][]byte
+	ecSigs   [][]byte // ECDSA signatures are randomized: made once and shared as bytes
+}
+
+type c19World struct {
+	sks     []crypto.PrivateKey
+	pks     []crypto.PublicKey
+	rem     crypto.PublicKey // pks[0] obtained through RemoveBLSPublicKeys (not normalised by a decoder)
+	agg     crypto.PublicKey // aggregate of all keys
+	shared  hash.Hasher      // one expand-message hasher shared by everybody
+	kmac    hash.Hasher      // one KMAC128 hasher shared by everybody
+	msgBuf  []byte
+	msgs    [][]byte // adjacent sub-slices of msgBuf (spare capacity reaches into the neighbour)
+	sigs    [][]crypto.Signature
+	pops    []crypto.Signature
+	aggSame []crypto.Signature
+	ecSK    []crypto.PrivateKey
+	ecPK    []crypto.PublicKey
+	ecSig   []crypto.Signature
+}
+
+func c19Build(g *gen.G, raw *c19Raw) *c19World {
+	w := &c19World{}
+	nk := len(raw.xs)
+	for _, x := range raw.xs {
+		sk := decodeSK(g, x)
+		w.sks = append(w.sks, sk)
+		w.pks = append(w.pks, sk.PublicKey()) // materialised before sharing (lazy caching is not among the listed operations)
+	}
+	var err error
+	if w.agg, err = crypto.AggregateBLSPublicKeys(w.pks); err != nil {
+		g.Fatalf("AggregateBLSPublicKeys: %v", err)
+	}
+	if w.rem, err = crypto.RemoveBLSPublicKeys(w.agg, w.pks[1:]); err != nil {
+		g.Fatalf("RemoveBLSPublicKeys: %v", err)
+	}
+	w.shared = crypto.NewExpandMsgXOFKMAC128(raw.tag)
+	w.kmac, _ = hash.NewKMAC_128([]byte("0123456789abcdef-c19"), []byte("c"), raw.kmacSize)
+	for _, m := range raw.msgs {
+		w.msgBuf = append(w.msgBuf, m...)
+	}
+	w.msgBuf = append(w.msgBuf, make([]byte, 64)...)
+	off := 0
+	for _, m := range raw.msgs {
+		w.msgs = append(w.msgs, w.msgBuf[off:off+len(m)])
+		off += len(m)
+	}
+	w.sigs = make([][]crypto.Signature, nk)
+	for i := range w.sigs {
+		w.sigs[i] = make([]crypto.Signature, len(w.msgs))
+		for j := range w.msgs {
+			// signed with a private hasher object so that the shared one is untouched before the race
+			w.sigs[i][j], _ = w.sks[i].Sign(raw.msgs[j], crypto.NewExpandMsgXOFKMAC128(raw.tag))
+		}
+	}
+	w.pops = make([]crypto.Signature, nk)
+	for i := range w.pops {
+		w.pops[i], _ = crypto.BLSGeneratePOP(w.sks[i])
+	}
+	w.aggSame = make([]crypto.Signature, len(w.msgs))
+	for j := range w.msgs {
+		l := make([]crypto.Signature, nk)
+		for i := range l {
+			l[i] = w.sigs[i][j]
+		}
+		w.aggSame[j], _ = crypto.AggregateBLSSignatures(l)
+	}
+	for i, a := range []crypto.SigningAlgorithm{crypto.ECDSAP256, crypto.ECDSASecp256k1} {
+		sk, err := crypto.GeneratePrivateKey(a, raw.ecSeeds[i])
+		if err != nil {
+			g.Fatalf("ECDSA keygen: %v", err)
+		}
+		w.ecSK = append(w.ecSK, sk)
+		w.ecPK = append(w.ecPK, sk.PublicKey())
+		w.ecSig = append(w.ecSig, append([]byte{}, raw.ecSigs[i]...))
+	}
+	return w
+}
+
+// snapshot renders every argument buffer (keys, messages, signatures, shared hashers' streams).
+func (w *c19World) snapshot() string {
+	var b bytes.Buffer
+	for i := range w.sks {
+		b.Write(w.sks[i].Encode())
+		b.Write(w.pks[i].Encode())
+		for j := range w.msgs {
+			b.Write(w.sigs[i][j])
+		}
+		b.Write(w.pops[i])
+	}
+	b.Write(w.rem.Encode())
+	b.Write(w.agg.Encode())
+	b.Write(w.msgBuf)
+	for _, s := range w.aggSame {
+		b.Write(s)
+	}
+	for i := range w.ecSK {
+		b.Write(w.ecSK[i].Encode())
+		b.Write(w.ecPK[i].Encode())
+		b.Write(w.ecSig[i])
+	}
+	b.Write(w.kmac.SumHash())
+	b.Write(w.shared.SumHash())
+	return b.String()
+}
+
 type c19Call struct {
 	name string
-	run  func() string // deterministic result (or verification verdict for randomized signing)
+	run  func(w *c19World) string // deterministic result (a verification verdict for randomized signing)
 }
 
 func TestC19_RaceFree(t *testing.T) {
 	gen.Run(t, "C19", func(g *gen.G) {
-		// shared objects
+		raw := &c19Raw{}
 		nk := g.Int("keys", 2, 4)
-		sks := make([]crypto.PrivateKey, nk)
-		pks := make([]crypto.PublicKey, nk)
-		for i := range sks {
+		for i := 0; i < nk; i++ {
 			x, _ := drawScalar(g, fmt.Sprintf("sk%d", i))
-			sks[i] = decodeSK(g, x)
-			pks[i] = sks[i].PublicKey() // materialised before sharing (lazy caching is not among the listed operations)
+			raw.xs = append(raw.xs, x)
 		}
-		shared := crypto.NewExpandMsgXOFKMAC128("c19-" + string(g.Bytes("tag", 0, 6))) // one KMAC hasher shared by everybody
-		kmac, _ := hash.NewKMAC_128([]byte("0123456789abcdef-c19"), []byte("c"), g.Int("kmacSize", 32, 64))
-		// the messages are adjacent sub-slices of one buffer (each has spare capacity reaching into its
-		// neighbour), so a callee that appends to or writes past its argument corrupts another message
-		msgs := make([][]byte, 3)
-		var msgBuf []byte
-		var msgLens []int
-		for i := range msgs {
-			m := g.Bytes(fmt.Sprintf("msg%d", i), 0, 300)
-			msgBuf = append(msgBuf, m...)
-			msgLens = append(msgLens, len(m))
+		raw.tag = "c19-" + string(g.Bytes("tag", 0, 6))
+		raw.kmacSize = g.Int("kmacSize", 32, 64)
+		for i := 0; i < 3; i++ {
+			raw.msgs = append(raw.msgs, g.Bytes(fmt.Sprintf("msg%d", i), 0, 300))
 		}
-		msgBuf = append(msgBuf, make([]byte, 64)...)
-		for i, off := 0, 0; i < len(msgs); i++ {
-			msgs[i] = msgBuf[off : off+msgLens[i]]
-			off += msgLens[i]
-		}
-		sigs := make([][]crypto.Signature, nk) // sigs[key][msg]
-		for i := range sigs {
-			sigs[i] = make([]crypto.Signature, len(msgs))
-			for j := range msgs {
-				sigs[i][j], _ = sks[i].Sign(msgs[j], shared)
+		for i, a := range []crypto.SigningAlgorithm{crypto.ECDSAP256, crypto.ECDSASecp256k1} {
+			seed := g.Bytes(fmt.Sprintf("ecSeed%d", i), 32, 32)
+			raw.ecSeeds = append(raw.ecSeeds, seed)
+			sk, err := crypto.GeneratePrivateKey(a, seed)
+			if err != nil {
+				g.Fatalf("ECDSA keygen: %v", err)
 			}
+			s, _ := sk.Sign(raw.msgs[0], hash.NewSHA2_256())
+			raw.ecSigs = append(raw.ecSigs, s)
 		}
-		pops := make([]crypto.Signature, nk)
-		for i := range pops {
-			pops[i], _ = crypto.BLSGeneratePOP(sks[i])
-		}
-		aggSame := make([]crypto.Signature, len(msgs))
-		for j := range msgs {
-			l := make([]crypto.Signature, nk)
-			for i := range l {
-				l[i] = sigs[i][j]
-			}
-			aggSame[j], _ = crypto.AggregateBLSSignatures(l)
-		}
-		ecAlgos := []crypto.SigningAlgorithm{crypto.ECDSAP256, crypto.ECDSASecp256k1}
-		ecSK := make([]crypto.PrivateKey, 2)
-		ecSig := make([]crypto.Signature, 2)
-		for i, a := range ecAlgos {
-			ecSK[i], _ = crypto.GeneratePrivateKey(a, g.Bytes(fmt.Sprintf("ecSeed%d", i), 32, 32))
-			_ = ecSK[i].PublicKey()
-			ecSig[i], _ = ecSK[i].Sign(msgs[0], hash.NewSHA2_256())
-		}
-		// snapshot of every argument buffer
-		snapshot := func() string {
-			var b bytes.Buffer
-			for i := range sks {
-				b.Write(sks[i].Encode())
-				b.Write(pks[i].Encode())
-				for j := range msgs {
-					b.Write(sigs[i][j])
-				}
-				b.Write(pops[i])
-			}
-			b.Write(msgBuf)
-			for _, s := range aggSame {
-				b.Write(s)
-			}
-			for i := range ecSK {
-				b.Write(ecSK[i].Encode())
-				b.Write(ecSig[i])
-			}
-			b.Write(shared.ComputeHash([]byte("probe")))
-			b.Write(kmac.SumHash())
-			return b.String()
-		}
-		before := snapshot()
+		nm := len(raw.msgs)
 
 		mk := func(label string) c19Call {
-			ki, mi := g.Pick(label+"Key", nk), g.Pick(label+"Msg", len(msgs))
-			switch g.Int(label+"Op", 0, 11) {
+			ki, mi := g.Pick(label+"Key", nk), g.Pick(label+"Msg", nm)
+			switch g.Int(label+"Op", 0, 13) {
 			case 0, 1:
-				return c19Call{"KMAC128.ComputeHash(shared)", func() string { return fmt.Sprintf("%x", kmac.ComputeHash(msgs[mi])) }}
+				return c19Call{"KMAC128.ComputeHash(shared)", func(w *c19World) string { return fmt.Sprintf("%x", w.kmac.ComputeHash(w.msgs[mi])) }}
 			case 2:
-				return c19Call{"BLS Sign(shared hasher)", func() string { s, err := sks[ki].Sign(msgs[mi], shared); return fmt.Sprintf("%x %v", []byte(s), err) }}
+				return c19Call{"BLS Sign(shared hasher)", func(w *c19World) string {
+					s, err := w.sks[ki].Sign(w.msgs[mi], w.shared)
+					return fmt.Sprintf("%x %v", []byte(s), err)
+				}}
 			case 3:
 				good := g.Bool(label + "Good")
-				return c19Call{"BLS Verify(shared hasher)", func() string {
-					s := sigs[ki][mi]
+				return c19Call{"BLS Verify(shared hasher)", func(w *c19World) string {
+					s := w.sigs[ki][mi]
 					if !good {
-						s = sigs[(ki+1)%nk][mi]
+						s = w.sigs[(ki+1)%nk][mi]
 					}
-					ok, err := pks[ki].Verify(s, msgs[mi], shared)
+					ok, err := w.pks[ki].Verify(s, w.msgs[mi], w.shared)
 					return fmt.Sprintf("%v %v", ok, err)
 				}}
 			case 4:
-				return c19Call{"BLSVerifyPOP", func() string { ok, err := crypto.BLSVerifyPOP(pks[ki], pops[ki]); return fmt.Sprintf("%v %v", ok, err) }}
+				return c19Call{"BLSVerifyPOP", func(w *c19World) string {
+					ok, err := crypto.BLSVerifyPOP(w.pks[ki], w.pops[ki])
+					return fmt.Sprintf("%v %v", ok, err)
+				}}
 			case 5:
-				return c19Call{"SPOCKVerify", func() string {
-					ok, err := crypto.SPOCKVerify(pks[ki], sigs[ki][mi], pks[(ki+1)%nk], sigs[(ki+1)%nk][mi])
+				return c19Call{"SPOCKVerify", func(w *c19World) string {
+					ok, err := crypto.SPOCKVerify(w.pks[ki], w.sigs[ki][mi], w.pks[(ki+1)%nk], w.sigs[(ki+1)%nk][mi])
 					return fmt.Sprintf("%v %v", ok, err)
 				}}
 			case 6:
-				return c19Call{"VerifyBLSSignatureOneMessage", func() string {
-					ok, err := crypto.VerifyBLSSignatureOneMessage(pks, aggSame[mi], msgs[mi], shared)
+				return c19Call{"VerifyBLSSignatureOneMessage", func(w *c19World) string {
+					ok, err := crypto.VerifyBLSSignatureOneMessage(w.pks, w.aggSame[mi], w.msgs[mi], w.shared)
 					return fmt.Sprintf("%v %v", ok, err)
 				}}
 			case 7:
-				return c19Call{"VerifyBLSSignatureManyMessages", func() string {
-					l := []crypto.Signature{sigs[ki][mi], sigs[(ki+1)%nk][(mi+1)%len(msgs)]}
+				return c19Call{"VerifyBLSSignatureManyMessages", func(w *c19World) string {
+					l := []crypto.Signature{w.sigs[ki][mi], w.sigs[(ki+1)%nk][(mi+1)%nm]}
 					agg, _ := crypto.AggregateBLSSignatures(l)
-					ok, err := crypto.VerifyBLSSignatureManyMessages([]crypto.PublicKey{pks[ki], pks[(ki+1)%nk]}, agg,
-						[][]byte{msgs[mi], msgs[(mi+1)%len(msgs)]}, []hash.Hasher{shared, shared})
+					ok, err := crypto.VerifyBLSSignatureManyMessages([]crypto.PublicKey{w.pks[ki], w.pks[(ki+1)%nk]}, agg,
+						[][]byte{w.msgs[mi], w.msgs[(mi+1)%nm]}, []hash.Hasher{w.shared, w.shared})
 					return fmt.Sprintf("%v %v", ok, err)
 				}}
 			case 8:
 				short := g.Bool(label + "ShortSig")
-				return c19Call{"BatchVerifyBLSSignaturesOneMessage", func() string {
+				return c19Call{"BatchVerifyBLSSignaturesOneMessage", func(w *c19World) string {
 					l := make([]crypto.Signature, nk)
 					for i := range l {
-						l[i] = sigs[i][mi]
+						l[i] = w.sigs[i][mi]
 					}
-					l[ki] = sigs[ki][(mi+1)%len(msgs)]
+					l[ki] = w.sigs[ki][(mi+1)%nm]
 					if short {
-						l[(ki+1)%nk] = sigs[(ki+1)%nk][mi][:47] // a short signature: that index is reported false
+						l[(ki+1)%nk] = w.sigs[(ki+1)%nk][mi][:47] // a short signature: that index is reported false
 					}
-					res, err := crypto.BatchVerifyBLSSignaturesOneMessage(pks, l, msgs[mi], shared)
+					res, err := crypto.BatchVerifyBLSSignaturesOneMessage(w.pks, l, w.msgs[mi], w.shared)
 					return fmt.Sprintf("%v %v", res, err)
 				}}
 			case 9:
 				ei := g.Pick(label+"Curve", 2)
-				return c19Call{"ECDSA Sign (per-goroutine hasher)", func() string {
-					s, err := ecSK[ei].Sign(msgs[mi], hash.NewSHA3_256())
+				return c19Call{"ECDSA Sign (per-goroutine hasher)", func(w *c19World) string {
+					s, err := w.ecSK[ei].Sign(w.msgs[mi], hash.NewSHA3_256())
 					if err != nil {
 						return err.Error()
 					}
-					ok, err := ecSK[ei].PublicKey().Verify(s, msgs[mi], hash.NewSHA3_256())
+					ok, err := w.ecPK[ei].Verify(s, w.msgs[mi], hash.NewSHA3_256())
 					return fmt.Sprintf("verifies=%v %v", ok, err)
 				}}
 			case 10:
 				ei := g.Pick(label+"Curve", 2)
-				return c19Call{"ECDSA Verify (per-goroutine hasher)", func() string {
-					ok, err := ecSK[ei].PublicKey().Verify(ecSig[ei], msgs[0], hash.NewSHA2_256())
+				return c19Call{"ECDSA Verify (per-goroutine hasher)", func(w *c19World) string {
+					ok, err := w.ecPK[ei].Verify(w.ecSig[ei], w.msgs[0], hash.NewSHA2_256())
+					return fmt.Sprintf("%v %v", ok, err)
+				}}
+			case 11: // a key that no decoder normalised: the result of RemoveBLSPublicKeys equals pks[0]
+				return c19Call{"BLS Verify under a key from RemoveBLSPublicKeys", func(w *c19World) string {
+					ok, err := w.rem.Verify(w.sigs[0][mi], w.msgs[mi], w.shared)
+					return fmt.Sprintf("%v %v", ok, err)
+				}}
+			case 12:
+				return c19Call{"BLS Verify under the aggregated key", func(w *c19World) string {
+					ok, err := w.agg.Verify(w.aggSame[mi], w.msgs[mi], w.shared)
 					return fmt.Sprintf("%v %v", ok, err)
 				}}
 			default:
-				return c19Call{"expand-message hasher ComputeHash(shared)", func() string { return fmt.Sprintf("%x", shared.ComputeHash(msgs[mi])) }}
+				return c19Call{"expand-message hasher ComputeHash(shared)", func(w *c19World) string { return fmt.Sprintf("%x", w.shared.ComputeHash(w.msgs[mi])) }}
 			}
 		}
 		G := g.Int("goroutines", 2, 8)
 		if g.Chance("many", 1, 4) {
 			G = g.Int("goroutinesMany", 9, 16)
 		}
+		solo := c19Build(g, raw)
+		ref := solo.snapshot()
 		prog := make([][]c19Call, G)
 		want := make([][]string, G)
-		sharedHasherUsers := 0
+		sharedUsers := 0
 		for gi := range prog {
 			for j, k := 0, g.Int("ops", 1, 4); j < k; j++ {
 				c := mk("c")
 				prog[gi] = append(prog[gi], c)
-				want[gi] = append(want[gi], c.run()) // the result of the same call run alone
+				want[gi] = append(want[gi], c.run(solo)) // the result of the same call run alone
 				if c.name != "ECDSA Sign (per-goroutine hasher)" && c.name != "ECDSA Verify (per-goroutine hasher)" {
-					sharedHasherUsers++
+					sharedUsers++
 				}
 			}
+		}
+		if solo.snapshot() != ref {
+			g.Fatalf("a key, message, signature or hasher passed as argument was modified by the calls run alone")
 		}
 		runs := 4
 		if thorough() {
@@ -195,6 +279,7 @@ func TestC19_RaceFree(t *testing.T) {
 		defer runtime.GOMAXPROCS(runtime.GOMAXPROCS(0))
 		for run := 0; run < runs; run++ {
 			runtime.GOMAXPROCS([]int{2, 4, 16}[run%3])
+			w := c19Build(g, raw) // fresh objects: nothing was touched sequentially before the race
 			got := make([][]string, G)
 			start := make(chan struct{})
 			var wg sync.WaitGroup
@@ -204,7 +289,7 @@ func TestC19_RaceFree(t *testing.T) {
 					defer wg.Done()
 					<-start
 					for _, c := range prog[gi] {
-						got[gi] = append(got[gi], c.run())
+						got[gi] = append(got[gi], c.run(w))
 					}
 				}(gi)
 			}
@@ -217,7 +302,7 @@ func TestC19_RaceFree(t *testing.T) {
 					}
 				}
 			}
-			if after := snapshot(); after != before {
+			if w.snapshot() != ref {
 				g.Fatalf("a key, message, signature or shared hasher passed as argument was modified by the concurrent calls")
 			}
 		}
@@ -226,7 +311,7 @@ func TestC19_RaceFree(t *testing.T) {
 				g.Class(c.name)
 			}
 		}
-		if G >= 2 && sharedHasherUsers >= 2 {
+		if G >= 2 && sharedUsers >= 2 {
 			g.NonTrivial()
 		}
 	})
